@@ -18,7 +18,7 @@ Definition view_of (s : state) : oview := mkOView (trading s) (map stat_of_link 
 
 Lemma obs_to_insts_id : forall l0 l1,
   map inst_static l1 = map inst_static l0 ->
-  obs_to_insts l0 (map (fun i => (i_orders i, i_pos i, i_last i)) l1) = l1.
+  obs_to_insts l0 (map (fun i => (i_orders i, i_pos i, i_data i)) l1) = l1.
 Proof.
   intros l0 l1. revert l0. induction l1 as [|x t IH]; intros [|y u] H; cbn in *; try discriminate; [reflexivity|].
   inversion H. unfold obs_to_insts in *. cbn. rewrite IH by assumption. f_equal.
@@ -27,12 +27,12 @@ Qed.
 
 Lemma rest_eqb : forall l1 l2, map inst_rest l1 = map inst_rest l2 ->
   list_eqb (fun a b => option_eqb pos_eqb (i_pos a) (i_pos b) &&
-                       option_eqb (pair_eqb Z.eqb Z.eqb) (i_last a) (i_last b)) l1 l2 = true.
+                       mdata_eqb (i_data a) (i_data b)) l1 l2 = true.
 Proof.
   induction l1 as [|x t IH]; intros [|y u] H; cbn in *; try discriminate; [reflexivity|].
-  assert (i_pos x = i_pos y /\ i_last x = i_last y /\ map inst_rest t = map inst_rest u) as (E1 & E2 & E3)
+  assert (i_pos x = i_pos y /\ i_data x = i_data y /\ map inst_rest t = map inst_rest u) as (E1 & E2 & E3)
     by (unfold inst_rest in H; inversion H; auto).
-  rewrite E1, E2, (option_eqb_refl _ _ pos_eqb_refl), (option_eqb_refl _ _ zz_eqb_refl). cbn. apply IH. exact E3.
+  rewrite E1, E2, (option_eqb_refl _ _ pos_eqb_refl), mdata_eqb_refl. cbn. apply IH. exact E3.
 Qed.
 
 (** everything the oracle checks after the two phases, given the facts the model theorems provide *)
@@ -85,7 +85,7 @@ Section Tail.
 
   Lemma tail_rest :
     list_eqb (fun a b => option_eqb pos_eqb (i_pos a) (i_pos b) &&
-                         option_eqb (pair_eqb Z.eqb Z.eqb) (i_last a) (i_last b)) after (insts su) = true.
+                         mdata_eqb (i_data a) (i_data b)) after (insts su) = true.
   Proof. rewrite tail_after. apply rest_eqb. exact Hrest. Qed.
 End Tail.
 
@@ -749,6 +749,201 @@ Proof.
     f_equal. rewrite <- Htsu. apply view_clear. exact Hst'.
 Qed.
 
+Lemma sound_ev_as : forall s0 l g cl,
+  (forall e, mbox (links s0) e = []) ->
+  (valid_opens (insts s0) (so_sent (ao_opens (snd (generate (fst (update_state s0 (EvAccountSnapshot l))) g)))) = true) ->
+  oracle_step (view_of s0) (mkStep (OpProcess (EvAccountSnapshot l)) g cl
+     (obs_of (fst (process (cs_of cl) s0 (EvAccountSnapshot l) g)) (MAudit (snd (process (cs_of cl) s0 (EvAccountSnapshot l) g)))))
+  = (true, view_of (clear_state (fst (process (cs_of cl) s0 (EvAccountSnapshot l) g)))).
+Proof.
+  intros s0 l g cl Hclr Hv.
+  event_script Hclr Hv.
+  unfold oracle_step. cbn [st_op st_obs st_g st_close obs_of ob_res ob_trading ob_deliv ob_insts res_of view_of ov_stats ov_insts ov_trading].
+  destruct (update_state {| trading := trading s0; links := []; insts := insts s0 |} _) as [su' outs'].
+  cbn [fst snd] in Hni, Hnt, Hno. subst outs'.
+  rewrite (surjective_pairing (split_mask (gs_cmask g) (gs_cancels g))).
+  rewrite (surjective_pairing (split_mask (gs_omask g) (gs_opens g))).
+  rewrite !o_sent_spec, !o_errs_spec. rewrite Hnt.
+  destruct Hg as (Ha & Htr & Hst & Hmb & Hrest & Hhas & Hmk). rewrite Hlk in Ha.
+  fold su0 in Hv.
+  destruct (trading su0) eqn:Htsu; cbn [fst snd].
+  - set (a := snd (generate su0 g)) in *. set (s1 := fst (generate su0 g)) in *.
+    rewrite <- Ha.
+    destruct (gen_checks a None outs Hnr eq_refl) as (G1 & G2 & G3 & G4 & G5). cbn zeta in G1, G2, G3, G4, G5.
+    rewrite G5. cbn [andb act_unrec app] in *. rewrite G1, G2, G3.
+    rewrite G5 in G4. rewrite G4.
+    assert (Hst' : forall e, lstat_of (links s1) e = lstat_of (links s0) e) by (intros e; rewrite Hst, Hlk; reflexivity).
+    assert (Hmb' : forall e, mbox (links s1) e = mbox (links s0) e ++ to_ex e ([] ++ algo_sent a))
+      by (intros e; rewrite Hmb, Hlk; reflexivity).
+    assert (Hopen : forall x, In x ([] ++ algo_sent a) -> link_open (links s0) (xr_ex x) = true)
+      by (intros x Hx; cbn [app] in Hx; rewrite Ha in Hx; eapply algo_sent_open; exact Hx).
+    assert (Hrest' : map inst_rest (insts s1) = map inst_rest (insts su')) by (rewrite Hni; exact Hrest).
+    assert (Hrest0 : map inst_static (insts su') = map inst_static (insts s0))
+      by (rewrite Hni; apply update_state_static).
+    assert (Hord : forall i c, ord (insts s1) i c =
+       marked (marked (ord (insts su')) (cancels_of []) (opens_of [])) (cancels_of (algo_sent a)) (opens_of (algo_sent a)) i c).
+    { intros i' c'. unfold algo_sent, cancels_of, opens_of. rewrite cancels_of_app, opens_of_app, Hni. rewrite Hmk.
+      - apply marked_ext. intros i'' c''. reflexivity.
+      - rewrite (valid_opens_ext _ (insts s0)); [exact Hv|exact Hhs]. }
+    pose proof (tail_after s0 s1 su' Hrest' Hrest0) as Hafter.
+    pose proof (tail_deliv s0 s1 [] (algo_sent a) Hclr Hst' Hmb' Hopen) as Hd.
+    pose proof (tail_orders s0 s1 su' [] (algo_sent a) Hrest' Hrest0 Hord) as Ho.
+    pose proof (tail_rest s0 s1 su' Hrest' Hrest0) as Hr.
+    cbn [app] in Hd, Ho.
+    rewrite Hd, Ho, Hr, Hafter, Htr, Bool.eqb_reflx. cbn [andb].
+    f_equal. rewrite <- Htr. apply view_clear. exact Hst'.
+  - destruct (nogen_checks None outs Hnr) as (G1 & G2 & G3 & G4 & G5). cbn zeta in G1, G2, G3, G4, G5.
+    rewrite G5. cbn [andb act_unrec app] in *. rewrite G1, G2, G3.
+    rewrite G5 in G4. rewrite G4.
+    assert (Hst' : forall e, lstat_of (links su0) e = lstat_of (links s0) e) by (intros e; rewrite Hlk; reflexivity).
+    assert (Hmb' : forall e, mbox (links su0) e = mbox (links s0) e ++ to_ex e ([] ++ []))
+      by (intros e; rewrite Hlk; cbn; rewrite app_nil_r; reflexivity).
+    assert (Hopen : forall x, In x (@nil xreq ++ []) -> link_open (links s0) (xr_ex x) = true) by (intros x []).
+    assert (Hrest' : map inst_rest (insts su0) = map inst_rest (insts su')) by (rewrite Hni; reflexivity).
+    assert (Hrest0 : map inst_static (insts su') = map inst_static (insts s0))
+      by (rewrite Hni; apply update_state_static).
+    assert (Hord : forall i c, ord (insts su0) i c =
+       marked (marked (ord (insts su')) (cancels_of []) (opens_of [])) (cancels_of []) (opens_of []) i c)
+      by (intros i' c'; rewrite Hni; reflexivity).
+    pose proof (tail_after s0 su0 su' Hrest' Hrest0) as Hafter.
+    pose proof (tail_deliv s0 su0 [] [] Hclr Hst' Hmb' Hopen) as Hd.
+    pose proof (tail_orders s0 su0 su' [] [] Hrest' Hrest0 Hord) as Ho.
+    pose proof (tail_rest s0 su0 su' Hrest' Hrest0) as Hr.
+    cbn [app] in Hd, Ho.
+    rewrite Hd, Ho, Hr, Hafter, Htsu, Bool.eqb_reflx. cbn [andb].
+    f_equal. rewrite <- Htsu. apply view_clear. exact Hst'.
+Qed.
+
+Lemma sound_ev_ml : forall s0 i t b g cl,
+  (forall e, mbox (links s0) e = []) ->
+  (valid_opens (insts s0) (so_sent (ao_opens (snd (generate (fst (update_state s0 (EvMarketL1 i t b))) g)))) = true) ->
+  oracle_step (view_of s0) (mkStep (OpProcess (EvMarketL1 i t b)) g cl
+     (obs_of (fst (process (cs_of cl) s0 (EvMarketL1 i t b) g)) (MAudit (snd (process (cs_of cl) s0 (EvMarketL1 i t b) g)))))
+  = (true, view_of (clear_state (fst (process (cs_of cl) s0 (EvMarketL1 i t b) g)))).
+Proof.
+  intros s0 i t b g cl Hclr Hv.
+  event_script Hclr Hv.
+  unfold oracle_step. cbn [st_op st_obs st_g st_close obs_of ob_res ob_trading ob_deliv ob_insts res_of view_of ov_stats ov_insts ov_trading].
+  destruct (update_state {| trading := trading s0; links := []; insts := insts s0 |} _) as [su' outs'].
+  cbn [fst snd] in Hni, Hnt, Hno. subst outs'.
+  rewrite (surjective_pairing (split_mask (gs_cmask g) (gs_cancels g))).
+  rewrite (surjective_pairing (split_mask (gs_omask g) (gs_opens g))).
+  rewrite !o_sent_spec, !o_errs_spec. rewrite Hnt.
+  destruct Hg as (Ha & Htr & Hst & Hmb & Hrest & Hhas & Hmk). rewrite Hlk in Ha.
+  fold su0 in Hv.
+  destruct (trading su0) eqn:Htsu; cbn [fst snd].
+  - set (a := snd (generate su0 g)) in *. set (s1 := fst (generate su0 g)) in *.
+    rewrite <- Ha.
+    destruct (gen_checks a None outs Hnr eq_refl) as (G1 & G2 & G3 & G4 & G5). cbn zeta in G1, G2, G3, G4, G5.
+    rewrite G5. cbn [andb act_unrec app] in *. rewrite G1, G2, G3.
+    rewrite G5 in G4. rewrite G4.
+    assert (Hst' : forall e, lstat_of (links s1) e = lstat_of (links s0) e) by (intros e; rewrite Hst, Hlk; reflexivity).
+    assert (Hmb' : forall e, mbox (links s1) e = mbox (links s0) e ++ to_ex e ([] ++ algo_sent a))
+      by (intros e; rewrite Hmb, Hlk; reflexivity).
+    assert (Hopen : forall x, In x ([] ++ algo_sent a) -> link_open (links s0) (xr_ex x) = true)
+      by (intros x Hx; cbn [app] in Hx; rewrite Ha in Hx; eapply algo_sent_open; exact Hx).
+    assert (Hrest' : map inst_rest (insts s1) = map inst_rest (insts su')) by (rewrite Hni; exact Hrest).
+    assert (Hrest0 : map inst_static (insts su') = map inst_static (insts s0))
+      by (rewrite Hni; apply update_state_static).
+    assert (Hord : forall i c, ord (insts s1) i c =
+       marked (marked (ord (insts su')) (cancels_of []) (opens_of [])) (cancels_of (algo_sent a)) (opens_of (algo_sent a)) i c).
+    { intros i' c'. unfold algo_sent, cancels_of, opens_of. rewrite cancels_of_app, opens_of_app, Hni. rewrite Hmk.
+      - apply marked_ext. intros i'' c''. reflexivity.
+      - rewrite (valid_opens_ext _ (insts s0)); [exact Hv|exact Hhs]. }
+    pose proof (tail_after s0 s1 su' Hrest' Hrest0) as Hafter.
+    pose proof (tail_deliv s0 s1 [] (algo_sent a) Hclr Hst' Hmb' Hopen) as Hd.
+    pose proof (tail_orders s0 s1 su' [] (algo_sent a) Hrest' Hrest0 Hord) as Ho.
+    pose proof (tail_rest s0 s1 su' Hrest' Hrest0) as Hr.
+    cbn [app] in Hd, Ho.
+    rewrite Hd, Ho, Hr, Hafter, Htr, Bool.eqb_reflx. cbn [andb].
+    f_equal. rewrite <- Htr. apply view_clear. exact Hst'.
+  - destruct (nogen_checks None outs Hnr) as (G1 & G2 & G3 & G4 & G5). cbn zeta in G1, G2, G3, G4, G5.
+    rewrite G5. cbn [andb act_unrec app] in *. rewrite G1, G2, G3.
+    rewrite G5 in G4. rewrite G4.
+    assert (Hst' : forall e, lstat_of (links su0) e = lstat_of (links s0) e) by (intros e; rewrite Hlk; reflexivity).
+    assert (Hmb' : forall e, mbox (links su0) e = mbox (links s0) e ++ to_ex e ([] ++ []))
+      by (intros e; rewrite Hlk; cbn; rewrite app_nil_r; reflexivity).
+    assert (Hopen : forall x, In x (@nil xreq ++ []) -> link_open (links s0) (xr_ex x) = true) by (intros x []).
+    assert (Hrest' : map inst_rest (insts su0) = map inst_rest (insts su')) by (rewrite Hni; reflexivity).
+    assert (Hrest0 : map inst_static (insts su') = map inst_static (insts s0))
+      by (rewrite Hni; apply update_state_static).
+    assert (Hord : forall i c, ord (insts su0) i c =
+       marked (marked (ord (insts su')) (cancels_of []) (opens_of [])) (cancels_of []) (opens_of []) i c)
+      by (intros i' c'; rewrite Hni; reflexivity).
+    pose proof (tail_after s0 su0 su' Hrest' Hrest0) as Hafter.
+    pose proof (tail_deliv s0 su0 [] [] Hclr Hst' Hmb' Hopen) as Hd.
+    pose proof (tail_orders s0 su0 su' [] [] Hrest' Hrest0 Hord) as Ho.
+    pose proof (tail_rest s0 su0 su' Hrest' Hrest0) as Hr.
+    cbn [app] in Hd, Ho.
+    rewrite Hd, Ho, Hr, Hafter, Htsu, Bool.eqb_reflx. cbn [andb].
+    f_equal. rewrite <- Htsu. apply view_clear. exact Hst'.
+Qed.
+
+Lemma sound_ev_ot : forall s0  g cl,
+  (forall e, mbox (links s0) e = []) ->
+  (valid_opens (insts s0) (so_sent (ao_opens (snd (generate (fst (update_state s0 EvOther)) g)))) = true) ->
+  oracle_step (view_of s0) (mkStep (OpProcess EvOther) g cl
+     (obs_of (fst (process (cs_of cl) s0 EvOther g)) (MAudit (snd (process (cs_of cl) s0 EvOther g)))))
+  = (true, view_of (clear_state (fst (process (cs_of cl) s0 EvOther g)))).
+Proof.
+  intros s0  g cl Hclr Hv.
+  event_script Hclr Hv.
+  unfold oracle_step. cbn [st_op st_obs st_g st_close obs_of ob_res ob_trading ob_deliv ob_insts res_of view_of ov_stats ov_insts ov_trading].
+  destruct (update_state {| trading := trading s0; links := []; insts := insts s0 |} _) as [su' outs'].
+  cbn [fst snd] in Hni, Hnt, Hno. subst outs'.
+  rewrite (surjective_pairing (split_mask (gs_cmask g) (gs_cancels g))).
+  rewrite (surjective_pairing (split_mask (gs_omask g) (gs_opens g))).
+  rewrite !o_sent_spec, !o_errs_spec. rewrite Hnt.
+  destruct Hg as (Ha & Htr & Hst & Hmb & Hrest & Hhas & Hmk). rewrite Hlk in Ha.
+  fold su0 in Hv.
+  destruct (trading su0) eqn:Htsu; cbn [fst snd].
+  - set (a := snd (generate su0 g)) in *. set (s1 := fst (generate su0 g)) in *.
+    rewrite <- Ha.
+    destruct (gen_checks a None outs Hnr eq_refl) as (G1 & G2 & G3 & G4 & G5). cbn zeta in G1, G2, G3, G4, G5.
+    rewrite G5. cbn [andb act_unrec app] in *. rewrite G1, G2, G3.
+    rewrite G5 in G4. rewrite G4.
+    assert (Hst' : forall e, lstat_of (links s1) e = lstat_of (links s0) e) by (intros e; rewrite Hst, Hlk; reflexivity).
+    assert (Hmb' : forall e, mbox (links s1) e = mbox (links s0) e ++ to_ex e ([] ++ algo_sent a))
+      by (intros e; rewrite Hmb, Hlk; reflexivity).
+    assert (Hopen : forall x, In x ([] ++ algo_sent a) -> link_open (links s0) (xr_ex x) = true)
+      by (intros x Hx; cbn [app] in Hx; rewrite Ha in Hx; eapply algo_sent_open; exact Hx).
+    assert (Hrest' : map inst_rest (insts s1) = map inst_rest (insts su')) by (rewrite Hni; exact Hrest).
+    assert (Hrest0 : map inst_static (insts su') = map inst_static (insts s0))
+      by (rewrite Hni; apply update_state_static).
+    assert (Hord : forall i c, ord (insts s1) i c =
+       marked (marked (ord (insts su')) (cancels_of []) (opens_of [])) (cancels_of (algo_sent a)) (opens_of (algo_sent a)) i c).
+    { intros i' c'. unfold algo_sent, cancels_of, opens_of. rewrite cancels_of_app, opens_of_app, Hni. rewrite Hmk.
+      - apply marked_ext. intros i'' c''. reflexivity.
+      - rewrite (valid_opens_ext _ (insts s0)); [exact Hv|exact Hhs]. }
+    pose proof (tail_after s0 s1 su' Hrest' Hrest0) as Hafter.
+    pose proof (tail_deliv s0 s1 [] (algo_sent a) Hclr Hst' Hmb' Hopen) as Hd.
+    pose proof (tail_orders s0 s1 su' [] (algo_sent a) Hrest' Hrest0 Hord) as Ho.
+    pose proof (tail_rest s0 s1 su' Hrest' Hrest0) as Hr.
+    cbn [app] in Hd, Ho.
+    rewrite Hd, Ho, Hr, Hafter, Htr, Bool.eqb_reflx. cbn [andb].
+    f_equal. rewrite <- Htr. apply view_clear. exact Hst'.
+  - destruct (nogen_checks None outs Hnr) as (G1 & G2 & G3 & G4 & G5). cbn zeta in G1, G2, G3, G4, G5.
+    rewrite G5. cbn [andb act_unrec app] in *. rewrite G1, G2, G3.
+    rewrite G5 in G4. rewrite G4.
+    assert (Hst' : forall e, lstat_of (links su0) e = lstat_of (links s0) e) by (intros e; rewrite Hlk; reflexivity).
+    assert (Hmb' : forall e, mbox (links su0) e = mbox (links s0) e ++ to_ex e ([] ++ []))
+      by (intros e; rewrite Hlk; cbn; rewrite app_nil_r; reflexivity).
+    assert (Hopen : forall x, In x (@nil xreq ++ []) -> link_open (links s0) (xr_ex x) = true) by (intros x []).
+    assert (Hrest' : map inst_rest (insts su0) = map inst_rest (insts su')) by (rewrite Hni; reflexivity).
+    assert (Hrest0 : map inst_static (insts su') = map inst_static (insts s0))
+      by (rewrite Hni; apply update_state_static).
+    assert (Hord : forall i c, ord (insts su0) i c =
+       marked (marked (ord (insts su')) (cancels_of []) (opens_of [])) (cancels_of []) (opens_of []) i c)
+      by (intros i' c'; rewrite Hni; reflexivity).
+    pose proof (tail_after s0 su0 su' Hrest' Hrest0) as Hafter.
+    pose proof (tail_deliv s0 su0 [] [] Hclr Hst' Hmb' Hopen) as Hd.
+    pose proof (tail_orders s0 su0 su' [] [] Hrest' Hrest0 Hord) as Ho.
+    pose proof (tail_rest s0 su0 su' Hrest' Hrest0) as Hr.
+    cbn [app] in Hd, Ho.
+    rewrite Hd, Ho, Hr, Hafter, Htsu, Bool.eqb_reflx. cbn [andb].
+    f_equal. rewrite <- Htsu. apply view_clear. exact Hst'.
+Qed.
+
 Lemma sound_ev_mr : forall s0  g cl,
   (forall e, mbox (links s0) e = []) ->
   (valid_opens (insts s0) (so_sent (ao_opens (snd (generate (fst (update_state s0 EvMarketReconnecting)) g)))) = true) ->
@@ -825,10 +1020,13 @@ Proof.
   intros s0 ev g cl Hp Hclr Hv. destruct ev; try discriminate Hp.
   - apply sound_ev_ts; assumption.
   - apply sound_ev_os; assumption.
+  - apply sound_ev_as; assumption.
   - apply sound_ev_cr; assumption.
   - apply sound_ev_tr; assumption.
   - apply sound_ev_ar; assumption.
   - apply sound_ev_mt; assumption.
+  - apply sound_ev_ml; assumption.
+  - apply sound_ev_ot; assumption.
   - apply sound_ev_mr; assumption.
 Qed.
 
@@ -1232,7 +1430,7 @@ Proof.
   - (* process *)
     rewrite (surjective_pairing (process (cs_of cl) s0 ev g)). cbn [fst snd].
     rewrite <- (view_of_clear (fst (process (cs_of cl) s0 ev g))).
-    destruct ev as [|c| | | | | | |];
+    destruct ev as [|c| | | | | | | | | |];
       try (apply sound_process_event; [reflexivity|exact Hclr|eapply step_valid_gen; [exact Hl0|exact Hv]]).
     + apply sound_shutdown. exact Hclr.
     + assert (not_cancel_orders c = true) as Hnc by (destruct c; try reflexivity; discriminate Hsc).
@@ -1282,5 +1480,6 @@ Theorem oracle_sound_C03 : forall c,
   valid_case c = true -> case_in_scope c = true -> corr_b c = true -> prop_b c = true.
 Proof.
   intros c Hv Hs Hc. unfold valid_case in Hv. apply andb_true_iff in Hv. destruct Hv as [Hwf Hv].
+  apply andb_true_iff in Hwf. destruct Hwf as [Hwf _].
   unfold prop_b. apply (sound_run (c_steps c) (c_init c) Hwf Hv Hs Hc).
 Qed.
